@@ -49,10 +49,13 @@ def src_files():
     return sorted('Src/' + f for f in os.listdir(d) if f.endswith('.v') and not f.startswith('.')) if os.path.isdir(d) else []
 
 # translator tie: which hand-written proof files sit on which generated file (compiled in this order)
-SRC_ORDER = ['GenPrim', 'GenWidthP', 'GenPrimP', 'GenDiv', 'GenDivP', 'GenLoopP', 'GenUint', 'GenUintP', 'GenMod', 'GenModP']
+SRC_ORDER = ['GenPrim', 'GenWidthP', 'GenPrimP', 'GenDiv', 'GenDivP', 'GenLoopP', 'GenIterP', 'GenUint', 'GenUintP', 'GenMod', 'GenModP',
+             'GenShift', 'GenShiftP', 'GenMul', 'GenMulP', 'GenInt', 'GenIntP']
 _PRIM = ['GenPrim', 'GenWidthP', 'GenPrimP']
 _UINT = _PRIM + ['GenLoopP', 'GenUint', 'GenUintP']
-SRC_NEEDS = {'C02': _PRIM + ['GenDiv', 'GenDivP'], 'C03': _PRIM, 'C04': _UINT, 'C06': _UINT, 'C07': _UINT + ['GenMod', 'GenModP']}
+SRC_NEEDS = {'C02': _PRIM + ['GenDiv', 'GenDivP'], 'C03': _PRIM + ['GenLoopP', 'GenIterP', 'GenShift', 'GenMul', 'GenMulP'], 'C04': _UINT, 'C06': _UINT,
+             'C05': _PRIM + ['GenLoopP', 'GenIterP', 'GenShift', 'GenShiftP'], 'C07': _UINT + ['GenMod', 'GenModP'],
+             'C13': _UINT + ['GenInt', 'GenIntP']}
 
 def src_tie(pid):
     """Translator tie (tools/rs2v.py): regenerate coq/Src/Gen*.v from REPO's current source, re-check the hand-written
